@@ -4,7 +4,17 @@ use std::collections::{BTreeMap, BTreeSet};
 use std::path::PathBuf;
 use std::time::Instant;
 
-pub const VERIF_DIR: &str = "/verif";
+/// root of the verification tree (evidence, replays, known findings); `/verif` unless a
+/// background run points the harness at a snapshot
+pub fn verif_dir() -> String {
+    std::env::var("VERIF_DIR").unwrap_or_else(|_| "/verif".to_string())
+}
+pub fn repo_dir() -> String {
+    std::env::var("VERIF_REPO").unwrap_or_else(|_| "/repo".to_string())
+}
+pub fn target_dir() -> String {
+    std::env::var("VERIF_TARGET").unwrap_or_else(|_| "/verif/target".to_string())
+}
 
 #[derive(Clone, Copy, PartialEq, Eq, Debug)]
 pub enum Tier {
@@ -131,7 +141,7 @@ impl KnownFindings {
     pub fn load() -> Self {
         let mut findings = BTreeMap::new();
         let mut fixed = Vec::new();
-        let text = std::fs::read_to_string(format!("{VERIF_DIR}/KNOWN_FINDINGS.txt")).unwrap_or_default();
+        let text = std::fs::read_to_string(format!("{}/KNOWN_FINDINGS.txt", verif_dir())).unwrap_or_default();
         for line in text.lines() {
             let line = line.trim();
             if let Some(rest) = line.strip_prefix("finding:") {
@@ -226,7 +236,7 @@ impl Report {
         let wall = self.start.elapsed().as_secs_f64();
         let mut exit = 0;
 
-        let replay_dir = PathBuf::from(format!("{VERIF_DIR}/replays/{}", self.prop));
+        let replay_dir = PathBuf::from(format!("{}/replays/{}", verif_dir(), self.prop));
         let mut reported = 0usize;
         let mut known_hits = Vec::new();
         let mut viol_list = Vec::new();
@@ -337,8 +347,8 @@ impl Report {
             "violations": reported,
             "exit_code": exit,
         });
-        let _ = std::fs::create_dir_all(format!("{VERIF_DIR}/evidence"));
-        let path = format!("{VERIF_DIR}/evidence/{}.json", self.prop);
+        let _ = std::fs::create_dir_all(format!("{}/evidence", verif_dir()));
+        let path = format!("{}/evidence/{}.json", verif_dir(), self.prop);
         if let Err(e) = std::fs::write(&path, serde_json::to_string_pretty(&ev).unwrap()) {
             println!("MACHINERY-ERROR property={} cannot write evidence: {e}", self.prop);
             if exit == 0 {
